@@ -1,0 +1,38 @@
+//go:build verif
+
+package keeper
+
+import (
+	"context"
+
+	sdk "github.com/cosmos/cosmos-sdk/types"
+
+	packettypes "github.com/teleport-network/teleport/x/xibc/core/packet/types"
+)
+
+// Ghost code for the verification machinery in /verif. It is compiled only with the build tag
+// `verif`, is never called by the chain, and exists so that a history-quantified sentence of a
+// property can be stated as the postcondition of a function whose body is a sequence of calls:
+// the verifier sees each callee through its contract only, so what is proved is a lemma over
+// the contracts (DESIGN.md section 2.10).
+
+// ghostAnyOperations stands for an arbitrary sequence of other state transitions of the chain
+// (messages, hooks, block logic). Its contract is the transition invariant that every function
+// able to change the xibc store is separately proved to satisfy (clauses [receipts-kept] on each
+// of them; the list of such functions is closed by the writer/caller inventories).
+func ghostAnyOperations(ctx sdk.Context) {}
+
+// lemmaExactlyOnce: two receives, any other operations in between (C01).
+func lemmaExactlyOnce(k Keeper, goCtx context.Context, first, second *packettypes.MsgRecvPacket) (err1, err2 error) {
+	_, err1 = k.RecvPacket(goCtx, first)
+	ghostAnyOperations(sdk.UnwrapSDKContext(goCtx))
+	_, err2 = k.RecvPacket(goCtx, second)
+	return err1, err2
+}
+
+// lemmaTransitionsCompose: two runs of "any other operations" are again such a run, so the ghost
+// transition stands for sequences of any length (the empty sequence keeps everything trivially).
+func lemmaTransitionsCompose(ctx sdk.Context) {
+	ghostAnyOperations(ctx)
+	ghostAnyOperations(ctx)
+}
